@@ -429,6 +429,13 @@ def run(ctx):
               necessary="a wrong missing set warns about a translated column or stays silent about a missing one")
     tcls = repo.cls("pyxform.validators.pyxform.translations_checks:Translations")
     trans_cols = ctx.consts.get("pyxform.aliases", "TRANSLATABLE_SURVEY_COLUMNS", "C20.R5")
+    # which columns count as translatable, per sheet (independent table): on the choices sheet only the label and the
+    # media columns are - `hint`, `guidance_hint` and the messages are plain data columns there
+    ch_cols = ctx.consts.get("pyxform.aliases", "TRANSLATABLE_CHOICES_COLUMNS", "C20.R5")
+    r5.check(isinstance(ch_cols, dict) and set(ch_cols) == {"label", "image", "big-image", "audio", "video"}, "TRANSLATABLE_CHOICES_COLUMNS", "choices: label, image, big-image, audio, video", "pyxform/aliases.py",
+             why_fail=repr(sorted(ch_cols) if isinstance(ch_cols, dict) else ch_cols))
+    r5.check(isinstance(trans_cols, dict) and set(trans_cols) == {"label", "hint", "guidance_hint", "image", "big-image", "audio", "video", "jr:constraintMsg", "jr:requiredMsg"}, "TRANSLATABLE_SURVEY_COLUMNS",
+             "survey: label, hint, guidance_hint, the media columns and the two bind messages", "pyxform/aliases.py", why_fail=repr(sorted(trans_cols) if isinstance(trans_cols, dict) else trans_cols))
     COLS = [("label", ("label",)), ("hint", ("hint",)), ("image", ("media", "image"))]
     LANGS = [None, "en", "fr"]
     pairs = [(c, l) for c in COLS for l in LANGS]
